@@ -109,7 +109,18 @@ func genWire(t *rapid.T, v reflect.Value, depth int) {
 			if rapid.IntRange(0, 5).Draw(t, "longopaque") == 0 && !strings.Contains(v.Type().String(), "Fhandle") {
 				n = pick(t, []int{65, 66, 67, 100}, "opaquelen2") // beyond the handle limit, legal elsewhere
 			}
-			v.SetBytes(rapid.SliceOfN(rapid.Byte(), n, n).Draw(t, "opaque"))
+			b := rapid.SliceOfN(rapid.Byte(), n, n).Draw(t, "opaque")
+			if rapid.Bool().Draw(t, "window") {
+				// a window onto a larger buffer whose bytes go on behind it (what a handler returning block[:n]
+				// hands to the encoder): the encoding must not depend on anything beyond the slice's length
+				big := make([]byte, n+8)
+				copy(big, b)
+				for i := n; i < len(big); i++ {
+					big[i] = 0xa0 | byte(i-n)
+				}
+				b = big[:n]
+			}
+			v.SetBytes(b)
 		} else {
 			n := rapid.IntRange(0, 3).Draw(t, "slicelen")
 			if rapid.IntRange(0, 7).Draw(t, "longlist") == 0 {
